@@ -27,6 +27,7 @@
 -/
 import RoProofs.SubjectsUnicastSpec
 import RoProofs.Atomic
+import RoProofs.SubjectsMicro
 import RoGen.SubjectLocks
 namespace Ro.C10
 open Ro Ro.Subj Ro.Subj.Spec
@@ -311,6 +312,27 @@ theorem unsubscribe_not_atomic_witness :
       ¬ (((runFrom .publish s0 ord).sub 0).got = [.next c 5] ∧ ((runFrom .publish s0 ord).sub 1).got = [])) := by
   decide
 
+/-- the micro-step reading used for these witnesses and by the history checker (`Kind.micro`: the
+    part before the broadcast loops, one visit per registered subscriber and loop, the part after)
+    is the atomic step when nothing runs in between — every multicast kind, state and operation -/
+theorem micro_agrees (k : Kind α) (s : State α) (o : Op α) (m : Micro α) (h : k.micro s o = some m) :
+    m.run = k.step s o := Ro.Subj.micro_agrees k s o m h
+
+/-- **async: half of a completion.**  Subscriber 0 is registered, 1 is the stored value.  `Complete`
+    first broadcasts the value, then the completion; `Unsubscribe 0` runs between the two: the
+    subscriber has received the value and never gets the completion.  Neither order of
+    {Complete, Unsubscribe 0} explains that. -/
+theorem async_partial_flush_witness :
+    let c : Ctx := {}
+    let s0 := run (.async) ([.subscribe 0 c, .next c 1] : List (Op Int))
+    ((Kind.async).micro s0 (.complete c)).map (fun m => m.visits.length) = some 2 ∧
+    -- value, Unsubscribe 0, completion:
+    ((Kind.async).micro s0 (.complete c)).map
+        (fun m => ((m.runWith 1 (fun s => asyncStep s (.unsubscribe 0))).sub 0).got) = some [.next c 1] ∧
+    ((runFrom .async s0 [.complete c, .unsubscribe 0]).sub 0).got = [.next c 1, .complete c] ∧
+    ((runFrom .async s0 [.unsubscribe 0, .complete c]).sub 0).got = [] := by
+  decide
+
 /-- **unicast can lose a value.**  Subscriber 0 holds the subject.  `Next 5` captures it under the
     lock; `Unsubscribe 0` runs; the deferred delivery finds the subscriber closed: the value goes
     to the drop hook — neither delivered (as if Next came first) nor queued for the next
@@ -356,4 +378,6 @@ end Ro.C10
 #print axioms Ro.C10.subjects_wellLocked
 #print axioms Ro.C10.unicast_delivers_outside_lock
 #print axioms Ro.C10.unsubscribe_not_atomic_witness
+#print axioms Ro.C10.micro_agrees
+#print axioms Ro.C10.async_partial_flush_witness
 #print axioms Ro.C10.unicast_lost_value_witness
